@@ -137,7 +137,11 @@ where
         
         match msg.optype {
             OperationType::ForceUpdateActiveBlob => {
-                update_active_blob(&self.inner).await?;
+                // An I/O failure while creating the new blob must not stop the worker:
+                // the next request will try again once the fault is gone
+                if let Err(e) = update_active_blob(&self.inner).await {
+                    error!("active blob was not updated: {:#}", e);
+                }
             },
             OperationType::CloseActiveBlob => {
                 // The request may not apply in the current state (no active blob): that must not stop the worker
@@ -162,7 +166,16 @@ where
                 self.try_run_fsync_task().await;
             }
             OperationType::TryUpdateActiveBlob => {
-                if self.try_update_active_blob().await? {
+                let updated = match self.try_update_active_blob().await {
+                    Ok(updated) => updated,
+                    Err(e) => {
+                        // An I/O failure while creating the new blob must not stop the worker:
+                        // the next write will request the update again
+                        error!("active blob was not updated: {:#}", e);
+                        false
+                    }
+                };
+                if updated {
                     // Dump due to an active BLOB switch can overlap with a deferred dump due to deletion. 
                     // That can result in performance degradation. 
                     // Therefore, if a deferred dump is registered, then we attach to it
